@@ -14,3 +14,11 @@ open XotModel.Props
 #print axioms C12_prefixes
 #print axioms C12_store
 #print axioms C12_store_fields
+#print axioms C12_sepB_of_inv
+#print axioms C12_locality_call
+#print axioms C12_locality_cloneNode
+#print axioms C12_locality_call_root
+#print axioms C12_locality_step
+#print axioms C12_locality_all
+#print axioms C12_locality_ops
+#print axioms C12_independent_all
